@@ -107,6 +107,24 @@ func TestC06_KeyAndIndexAgreement(t *testing.T) {
 			rt.Fatalf("Initiate: %v", err)
 		}
 		m1 = m1[len(pre):]
+		// The nebula header in front of the Noise message is not authenticated. An on-path party may
+		// rewrite its index, counter and reserved bytes; if both sides still complete, they completed
+		// over the same session and everything below must hold all the same.
+		tamper := func(m []byte, tag string) bool {
+			if len(m) < 16 || rapid.IntRange(0, 3).Draw(rt, tag+".tamper") != 0 {
+				return false
+			}
+			switch rapid.IntRange(0, 2).Draw(rt, tag+".field") {
+			case 0:
+				binary.BigEndian.PutUint64(m[8:16], rapid.SampledFrom([]uint64{0, 1, 2, 3, 7, 8191, 8192, 1 << 40, ^uint64(0)}).Draw(rt, tag+".ctr"))
+			case 1:
+				binary.BigEndian.PutUint32(m[4:8], rapid.Uint32().Draw(rt, tag+".idx"))
+			default:
+				m[2], m[3] = rapid.Byte().Draw(rt, tag+".r0"), rapid.Byte().Draw(rt, tag+".r1")
+			}
+			return true
+		}
+		tampered := tamper(m1, "m1")
 		m2, rr, err := rm.ProcessPacket(hsgClone(pre), m1)
 		if err != nil || rr == nil {
 			c06NotCompleted++
@@ -117,6 +135,10 @@ func TestC06_KeyAndIndexAgreement(t *testing.T) {
 			rt.Fatalf("responder output lost the caller's prefix")
 		}
 		m2 = m2[len(pre):]
+		tampered = tamper(m2, "m2") || tampered
+		if tampered {
+			vk.Label("C06", "header-rewritten-in-flight")
+		}
 		_, ir, err := im.ProcessPacket(nil, m2)
 		if err != nil || ir == nil {
 			c06NotCompleted++
